@@ -259,7 +259,7 @@ def body_ears(ctx, n, reverse):
 def check_cover(ctx, poly, tris, n, label=''):
     ctx.check(len(tris) == n - 2, f'{label}n-2 triangles for an n-sided cell')
     ts = [shapely.Polygon([tuple(p) for p in t]) for t in tris]
-    tol = 1e-9 * max(1.0, poly.area)
+    tol = 1e-9 * poly.area            # relative: cells may be metres or degrees across
     ctx.check(all(t.area > 0 for t in ts), f'{label}no degenerate triangle')
     ctx.check(all(t.difference(poly).area <= tol for t in ts), f'{label}every triangle lies inside its cell')
     ctx.check(all(ts[a].intersection(ts[b]).area <= tol for a in range(len(ts)) for b in range(a + 1, len(ts))), f'{label}triangles do not overlap')
@@ -288,7 +288,7 @@ SHAPES = {
 def body_dataset(ctx, kind):
     from emsarray.operations.triangulate import triangulate_dataset
     which = int(ctx.int('variant', 0, 3))
-    if kind == 'mesh':
+    if kind in ('mesh', 'mesh-small'):
         names = list(SHAPES)
         # every shape, in an order that depends on the variant (so concave cells sit at different linear indexes)
         chosen = names[which * 3:] + names[:which * 3]
@@ -302,9 +302,26 @@ def body_dataset(ctx, kind):
         nodes.extend([(50, 0), (52, 0), (52, 2), (50, 2), (54, 1)])
         faces.append([base, base + 1, base + 2, base + 3])
         faces.append([base + 1, base + 4, base + 2])
+        if kind == 'mesh-small':
+            # the same mesh at a resolution of about ten metres (cell areas ~1e-8 square degrees)
+            nodes = [(150.0 + x * 1e-4, -20.0 + y * 1e-4) for x, y in nodes]
         ds = builders.ugrid((nodes, faces), fill='nan', start_index=which % 2)
     elif kind == 'cf2d':
         ds = _holes_cf2d(which)
+    elif kind == 'cf2d-dart':
+        # cells without geometry *before* a concave cell (a dart whose reflex vertex sits at ring position `which`)
+        ds = _holes_cf2d(0)
+        dart = [(0.0, 0.0), (0.9, 0.0), (0.25, 0.25), (0.0, 0.9)]          # reflex vertex third
+        dart = dart[-which:] + dart[:-which] if which else dart
+        lonb, latb = ds['lon_bnds'].values.copy(), ds['lat_bnds'].values.copy()
+        for (j, i) in ((1, 1), (2, 2)):
+            for c, (x, y) in enumerate(dart):
+                lonb[j, i, c] = 100.0 + 2 * i - 0.5 * j - 0.4 + x
+                latb[j, i, c] = 10.0 + j + 0.25 * i - 0.4 + y
+        lonb[0, 1] = numpy.nan
+        latb[0, 1] = numpy.nan
+        ds['lon_bnds'] = (ds['lon_bnds'].dims, lonb)
+        ds['lat_bnds'] = (ds['lat_bnds'].dims, latb)
     elif kind == 'shoc_standard':
         jj, ii = numpy.meshgrid(numpy.arange(4.0), numpy.arange(5.0), indexing='ij')
         nx_, ny_ = 100 + 2 * ii + 0.5 * jj, 10 + jj - 0.25 * ii
@@ -376,7 +393,7 @@ def cases(tier):
         for reverse in (False, True):
             yield Case(f'ears:n{n}:{"rev" if reverse else "fwd"}', body_ears, dict(n=n, reverse=reverse), patches=_tri_patches,
                        max_paths=50000, split=16)
-    for kind in ('mesh', 'cf2d', 'shoc_standard', 'cf1d', 'sparse8') + (() if q else ('sparse16',)):
+    for kind in ('mesh', 'mesh-small', 'cf2d', 'cf2d-dart', 'shoc_standard', 'cf1d', 'sparse8') + (() if q else ('sparse16',)):
         yield Case(f'dataset:{kind}', body_dataset, dict(kind=kind), max_paths=20)
 
 
